@@ -81,6 +81,19 @@ type refUnit struct {
 	PESLen   int
 	Sections []*refSection
 	TailFF   bool // PSI: pad the last packet with 0xFF instead of adaptation-field stuffing
+	Tiny     bool // one or two payload bytes per packet (a unit of very many packets)
+}
+
+// refMuxPESTotal builds a bounded PES unit whose PES_packet_length is exactly total (total >= 16).
+func refMuxPESTotal(r *Rng, pid uint16, sid byte, total int) *refUnit {
+	u := refMuxPES(r, pid, sid, total, true)
+	hl := 3 + int(u.Bytes[8])
+	n := total - hl
+	u.Data = u.Data[:n]
+	u.Bytes = u.Bytes[:6+hl+n]
+	u.Bytes[4], u.Bytes[5] = byte(total>>8), byte(total)
+	u.PESLen = total
+	return u
 }
 
 func refMuxPES(r *Rng, pid uint16, sid byte, n int, unbounded bool) *refUnit {
@@ -214,6 +227,8 @@ func packetiseUnit(r *Rng, u *refUnit, idx int, cc *byte, smallChunks bool) []*r
 			min = max
 		}
 		switch {
+		case u.Tiny:
+			n = r.Range(1, 2)
 		case smallChunks || r.Chance(1, 4):
 			n = r.Range(min, max)
 			if r.Chance(1, 4) {
@@ -284,6 +299,8 @@ type streamOpts struct {
 	SmallChunks bool
 	Repeats     int  // how many times PAT/PMT are repeated
 	NearPIDs    bool // PES PIDs that differ in one bit from each other (and 0x0fff next to null packets)
+	PESTotals   []int // first PES PID: bounded units with exactly these PES_packet_length values instead of random ones
+	LongUnit    int   // first PES PID: its first unit is an unbounded PES spread over at least this many packets
 }
 
 // genRefStream builds a well-formed stream: PAT first, then PMTs, PES units interleaved.
@@ -371,7 +388,19 @@ func genRefStream(r *Rng, o streamOpts) *refStreamModel {
 		if sid == 0xbf {
 			sid = 0xc1
 		}
+		if pid == pesPIDs[0] && len(o.PESTotals) > 0 {
+			for _, t := range o.PESTotals {
+				addUnit(refMuxPESTotal(r, pid, 0xc0, t))
+			}
+			continue
+		}
 		for k := 0; k < o.UnitsPerPID; k++ {
+			if pid == pesPIDs[0] && k == 0 && o.LongUnit > 0 {
+				u := refMuxPES(r, pid, 0xe0, 2*o.LongUnit, true)
+				u.Tiny = true
+				addUnit(u)
+				continue
+			}
 			n := r.Range(1, o.MaxPES)
 			switch r.Intn(8) {
 			case 0:
